@@ -1,7 +1,280 @@
-//! Correspondence harness of property C08 (stub).
+//! Correspondence harness of property C08: the off-circuit public-input encoders
+//! (`Instantiable::as_public_input`, `format_instance`) against what the compiled circuits bind
+//! (`constrain_as_public_input` / `assign_as_public_input` / committed variant), the instance-row
+//! counter stored in the verifying key, and the Lean model of both.
+use ff::Field;
 use mzkh::Ctx;
+use serde_json::json;
+
+mod rel;
+mod vals;
+
+use rel::{MixRelation, Path, Step};
+use vals::*;
+
+/// `enc <token>` : the real off-circuit encoder on one value.
+fn enc_case(ctx: &mut Ctx, it: &Item, nontrivial: bool) {
+    let line = format!("enc {}", it.token());
+    let ans = match mzkh::catch(|| it.encode()) {
+        Ok(v) => fq_list(&v),
+        Err(_) => "panic".to_string(),
+    };
+    ctx.case(&format!("enc:{}", it.tag().split(':').next().unwrap()), nontrivial, &line, &ans);
+}
+
+fn run_enc(ctx: &mut Ctx) {
+    use midnight_curves::{
+        k256::{Fp as SecpFp, Fq as SecpFq},
+        Fp as BlsFp,
+    };
+    let mut rng = ctx.rng("enc");
+    let nrand = if ctx.quick() { 8 } else { 64 };
+    for b in [false, true] {
+        enc_case(ctx, &Item::Bit(b), true);
+    }
+    for b in 0..=255u8 {
+        enc_case(ctx, &Item::Byte(b), true);
+    }
+    for x in field_boundaries::<F>(64, 4).into_iter().chain((0..nrand).map(|_| rand_field::<F>(&mut rng))) {
+        enc_case(ctx, &Item::Native(x), true);
+    }
+    for x in field_boundaries::<SecpFp>(64, 4).into_iter().chain((0..nrand).map(|_| rand_field(&mut rng))) {
+        enc_case(ctx, &Item::SecpBase(x), true);
+    }
+    for x in field_boundaries::<SecpFq>(64, 4).into_iter().chain((0..nrand).map(|_| rand_field(&mut rng))) {
+        enc_case(ctx, &Item::SecpScalar(x), true);
+    }
+    for x in field_boundaries::<BlsFp>(56, 7).into_iter().chain((0..nrand).map(|_| rand_field(&mut rng))) {
+        enc_case(ctx, &Item::BlsBase(x), true);
+    }
+    for p in secp_points(&mut rng, nrand) {
+        enc_case(ctx, &Item::SecpPoint(p), true);
+    }
+    for p in bls_points(&mut rng, nrand) {
+        enc_case(ctx, &Item::BlsPoint(p), true);
+    }
+    for p in jpoints(&mut rng, nrand) {
+        enc_case(ctx, &Item::JPoint(p), true);
+    }
+    for s in jscalars(&mut rng, nrand) {
+        enc_case(ctx, &Item::JScalar(s), true);
+    }
+    // BigUint of every limb count 0..=5 (and more in thorough), bound at / around limb borders
+    let nbs: Vec<u32> = if ctx.quick() {
+        vec![0, 1, 2, 8, 64, 95, 96, 97, 128, 191, 192, 193, 288, 289, 384, 385, 480, 1024]
+    } else {
+        (0..=200).chain([287, 288, 289, 383, 384, 385, 479, 480, 481, 1023, 1024, 1025, 2048, 4096]).collect()
+    };
+    for nb in nbs {
+        for v in bits_boundaries(nb).into_iter().chain((0..(nrand / 4).max(2)).map(|_| rand_big(&mut rng, nb))) {
+            enc_case(ctx, &Item::Big(nb, v), true);
+        }
+        // values that do not fit the limbs of the declared bound: the encoder panics
+        let nl = nb.div_ceil(96);
+        enc_case(ctx, &Item::Big(nb, num_bigint::BigUint::from(1u8) << (96 * nl)), true);
+        if nb % 96 != 0 {
+            // fits the limbs but not the declared bound: encoded without complaint
+            enc_case(ctx, &Item::Big(nb, num_bigint::BigUint::from(1u8) << nb), true);
+        }
+    }
+}
+
+// ---------------------------------------------------------------------------------------------
+
+struct KCache(std::collections::HashMap<String, u32>);
+
+impl KCache {
+    fn k(&mut self, rel: &MixRelation) -> u32 {
+        let key = rel.steps.iter().map(|s| format!("{}:{}", s.path.tag(), s.proto.tag())).collect::<Vec<_>>().join(" ");
+        *self.0.entry(key).or_insert_with(|| rel::min_k(rel))
+    }
+}
+
+/// One exposure case: the relation exposing `steps` with values `items`.
+///  * the honest raw vectors (REAL encoders) must satisfy the circuit;
+///  * every single-position edit (+1) of either vector must be rejected;
+///  * the bound instance rows must be exactly `0..len` of the encoded vectors, and the cells
+///    they are tied to must hold the encoded values.
+fn expose_case(ctx: &mut Ctx, kc: &mut KCache, kind: &str, steps: Vec<Step>, items: Vec<Item>) {
+    let rel = MixRelation::new(steps);
+    let line = format!(
+        "expose {}",
+        if rel.steps.is_empty() {
+            "-".to_string()
+        } else {
+            rel.steps.iter().zip(&items).map(|(s, it)| format!("{}:{}", s.path.tag(), it.token())).collect::<Vec<_>>().join(" ")
+        }
+    );
+    let key = format!("expose:{line}");
+    let r = mzkh::catch(|| {
+        let k = kc.k(&rel);
+        let (plain, com) = rel::raw_vectors(&rel, &items);
+        let obs = rel::observe(&rel, &items, k, &com, &plain)?;
+        Ok::<_, String>((k, plain, com, obs))
+    });
+    let (k, plain, com, obs) = match r {
+        Ok(Ok(x)) => x,
+        Ok(Err(e)) => {
+            ctx.case(kind, true, &line, &format!("error {}", e.chars().take(120).collect::<String>()));
+            ctx.oracle_fail(&key, "exposing an honest value fails at synthesis", json!({"error": e, "line": line}));
+            return;
+        }
+        Err(p) => {
+            ctx.case(kind, true, &line, "panic");
+            ctx.oracle_fail(&key, "exposing an honest value panics", json!({"panic": p, "line": line}));
+            return;
+        }
+    };
+    let fmt_bound = |b: &rel::Bound| {
+        let contiguous = b.rows.iter().enumerate().all(|(i, r)| i == *r);
+        let cells: Vec<String> = b.cells.iter().map(|c| c.map(|f| hex(&f)).unwrap_or("?".into())).collect();
+        format!("{}{}:{}", b.rows.len(), if contiguous { "" } else { "!gap" }, if cells.is_empty() { "-".into() } else { cells.join(",") })
+    };
+    // single-position edits
+    let mut rejected = 0usize;
+    let mut accepted_edits = vec![];
+    let total = plain.len() + com.len();
+    if obs.sat {
+        for i in 0..total {
+            let (mut p2, mut c2) = (plain.clone(), com.clone());
+            if i < plain.len() {
+                p2[i] += F::ONE;
+            } else {
+                c2[i - plain.len()] += F::ONE;
+            }
+            match mzkh::catch(|| rel::verdict(&rel, &items, k, &c2, &p2)) {
+                Ok(Ok(false)) => rejected += 1,
+                Ok(Ok(true)) => accepted_edits.push(i),
+                Ok(Err(e)) | Err(e) => {
+                    accepted_edits.push(i);
+                    ctx.count(&format!("edit-error:{}", e.chars().take(40).collect::<String>()));
+                }
+            }
+        }
+        ctx.count_n("edits_tried", total as u64);
+    }
+    let ans = format!(
+        "plain={} com={} sat={} rej={}/{}",
+        fmt_bound(&obs.plain),
+        fmt_bound(&obs.committed),
+        obs.sat as u8,
+        rejected,
+        total
+    );
+    ctx.case(kind, true, &line, &ans);
+    ctx.count(&format!("k:{k}"));
+    ctx.count(&format!("exposed-cells:{}", if total == 0 { "0".into() } else if total <= 4 { total.to_string() } else if total <= 16 { "5-16".into() } else { "17+".into() }));
+    // the property's oracle, checked directly on the implementation
+    if !obs.sat {
+        ctx.oracle_fail(
+            &key,
+            "the circuit exposing v rejects the off-circuit encoding of v",
+            json!({"line": line, "k": k, "plain": fq_list(&plain), "committed": fq_list(&com), "bound": ans, "failures": obs.failures}),
+        );
+        return;
+    }
+    if !accepted_edits.is_empty() {
+        ctx.oracle_fail(
+            &key,
+            "the circuit exposing v accepts a raw vector different from the encoding of v",
+            json!({"line": line, "k": k, "positions": accepted_edits, "plain": fq_list(&plain), "committed": fq_list(&com)}),
+        );
+    }
+    let check = |b: &rel::Bound, enc: &[F]| {
+        b.rows.len() == enc.len()
+            && b.rows.iter().enumerate().all(|(i, r)| i == *r)
+            && b.cells.iter().zip(enc).all(|(c, e)| c.as_ref() == Some(e))
+    };
+    if !check(&obs.plain, &plain) || !check(&obs.committed, &com) {
+        ctx.oracle_fail(
+            &key,
+            "the instance rows bound by the circuit are not exactly the positions of the off-circuit encoding",
+            json!({"line": line, "k": k, "plain": fq_list(&plain), "committed": fq_list(&com), "bound": ans}),
+        );
+    }
+}
+
+fn single(ctx: &mut Ctx, kc: &mut KCache, path: Path, it: Item) {
+    let kind = format!("expose1:{}:{}", it.tag().split(':').next().unwrap(), path.tag());
+    expose_case(ctx, kc, &kind, vec![Step { path, proto: it.clone() }], vec![it]);
+}
+
+fn run_expose_single(ctx: &mut Ctx) {
+    let mut kc = KCache(Default::default());
+    let mut rng = ctx.rng("expose1");
+    let q = ctx.quick();
+    let basic = [Path::Constrain, Path::Assign, Path::Fixed];
+    for p in basic.iter().chain([Path::Committed].iter()) {
+        for b in [false, true] {
+            single(ctx, &mut kc, *p, Item::Bit(b));
+        }
+        for b in [0u8, 1, 127, 255] {
+            single(ctx, &mut kc, *p, Item::Byte(b));
+        }
+        for x in [F::ZERO, F::ONE, -F::ONE, rand_field::<F>(&mut rng)] {
+            single(ctx, &mut kc, *p, Item::Native(x));
+        }
+    }
+    for x in [F::ZERO, F::ONE, -F::ONE, rand_field::<F>(&mut rng)] {
+        single(ctx, &mut kc, Path::Derived(0), Item::Native(x));
+    }
+    use midnight_curves::{
+        k256::{Fp as SecpFp, Fq as SecpFq},
+        Fp as BlsFp,
+    };
+    let nr = if q { 1 } else { 6 };
+    let ffpaths = [Path::Constrain, Path::Assign, Path::Fixed, Path::Derived(0), Path::Derived(1)];
+    for p in ffpaths {
+        let lim = |n: usize| if q && p != Path::Constrain && p != Path::Assign { n.min(6) } else { n };
+        let v = field_boundaries::<SecpFp>(64, 4);
+        for x in v.iter().take(lim(v.len())).cloned().chain((0..nr).map(|_| rand_field(&mut rng))) {
+            single(ctx, &mut kc, p, Item::SecpBase(x));
+        }
+        let v = field_boundaries::<SecpFq>(64, 4);
+        for x in v.iter().take(lim(v.len())).cloned().chain((0..nr).map(|_| rand_field(&mut rng))) {
+            single(ctx, &mut kc, p, Item::SecpScalar(x));
+        }
+        let v = field_boundaries::<BlsFp>(56, 7);
+        for x in v.iter().take(lim(v.len())).cloned().chain((0..nr).map(|_| rand_field(&mut rng))) {
+            single(ctx, &mut kc, p, Item::BlsBase(x));
+        }
+        for pt in secp_points(&mut rng, nr) {
+            single(ctx, &mut kc, p, Item::SecpPoint(pt));
+        }
+        for pt in bls_points(&mut rng, nr) {
+            single(ctx, &mut kc, p, Item::BlsPoint(pt));
+        }
+        for pt in jpoints(&mut rng, nr) {
+            single(ctx, &mut kc, p, Item::JPoint(pt));
+        }
+    }
+    for p in [Path::Constrain, Path::Assign, Path::Fixed, Path::Derived(0), Path::Derived(1), Path::Derived(31), Path::Derived(32), Path::Derived(64)] {
+        for s in jscalars(&mut rng, nr) {
+            if let Path::Derived(n) = p {
+                if n >= 1 && n < 32 && mzkh::fe_big(&s).bits() > 8 * n as u64 {
+                    continue;
+                }
+            }
+            single(ctx, &mut kc, p, Item::JScalar(s));
+        }
+    }
+    let nbs: Vec<u32> = if q { vec![1, 8, 96, 104, 200] } else { vec![1, 2, 8, 64, 95, 96, 97, 104, 192, 193, 200, 288, 296, 400] };
+    for nb in nbs {
+        for v in bits_boundaries(nb).into_iter().chain((0..nr).map(|_| rand_big(&mut rng, nb))) {
+            single(ctx, &mut kc, Path::Constrain, Item::Big(nb, v.clone()));
+            if (v.bits().max(1) as u32) == nb {
+                single(ctx, &mut kc, Path::Fixed, Item::Big(nb, v.clone()));
+            }
+            if nb % 8 == 0 {
+                single(ctx, &mut kc, Path::Derived(0), Item::Big(nb, v.clone()));
+            }
+        }
+    }
+}
 
 fn main() {
-    let ctx = Ctx::from_args("C08");
+    let mut ctx = Ctx::from_args("C08");
+    run_enc(&mut ctx);
+    run_expose_single(&mut ctx);
     ctx.finish();
 }
